@@ -70,9 +70,19 @@ pub fn save<T: SerdeAPI>(x: &T, fmt: u8) -> Result<Vec<u8>, String> {
         f => {
             let p = tmp(["yaml", "json", "bin"][(f as usize - 3) % 3]);
             x.to_file(&p).map_err(|e| format!("{e:#}"))?;
-            let b = std::fs::read(&p).map_err(|e| e.to_string());
+            let b = std::fs::read(&p).map_err(|e| e.to_string())?;
+            // saving over an existing, longer file (a results file written again, a rolling
+            // checkpoint) must leave exactly the new image behind
+            let mut junk = b.clone();
+            junk.extend(std::iter::repeat(b'#').take(4096));
+            std::fs::write(&p, &junk).map_err(|e| e.to_string())?;
+            x.to_file(&p).map_err(|e| format!("{e:#}"))?;
+            let b2 = std::fs::read(&p).map_err(|e| e.to_string())?;
             let _ = std::fs::remove_file(&p);
-            b
+            if b2 != b {
+                return Err(format!("OVERWRITE: to_file over an existing file of {} bytes left {} bytes where a fresh file gets {}", junk.len(), b2.len(), b.len()));
+            }
+            Ok(b)
         }
     }
 }
@@ -234,7 +244,7 @@ fn round_trip<T: SerdeAPI + PartialEq + Serialize>(x: &T, fmt: u8, kind: &str, c
             return None;
         }
         Ok(Err(e)) => {
-            let cause = cause(x, fam, &e);
+            let cause = if e.starts_with("OVERWRITE") { "overwriting-a-longer-file-leaves-old-bytes".to_string() } else { cause(x, fam, &e).to_string() };
             cx.fail(format!("C17|save|{fam}:{cause}"), format!("{kind} via {f}: {}", e.chars().take(300).collect::<String>()));
             return None;
         }
